@@ -108,3 +108,229 @@ Theorem C12_nonvacuous : valid_b ex_P ex_S = []
   /\ applicable_b (MDistance 0 0 2) ex_P ex_S = true /\ valid_b ex_P (mutS (MDistance 0 0 2) ex_S) = [RDistance 0 0]
   /\ applicable_b (MCapacity 0 0) ex_P ex_S = true /\ valid_b (mutP (MCapacity 0 0) ex_P ex_S) ex_S <> [].
 Proof. exact c12_nonvacuous. Qed.
+
+(* ================================================================== STRUCTURAL PART: the bundled checker itself.
+   Model/Checker.v is the executable model of vrp-pragmatic/src/checker/{mod,limits,capacity,routing,assignment,relations,breaks}.rs
+   as written (tied to the code rule group by rule group on every run: tools/props/c12_rules.py).  The theorems below relate the
+   model of each real rule to the reference semantics.  Fragments are boolean predicates on the documents (Model/Checker.v):
+   ctx_frag (the vehicle type found by vehicle id / the shift found BY TIME are the ones the tour names), single_act_stops,
+   two_stops, no_reload_stop / no_reloads / plain_acts, simple_jobs, one_dim, locs_known, caps_nonneg, pos_job_ids, dyn_balanced,
+   rel_frag, kind_ids_ok, regular_kinds. *)
+From VRP Require Import Spec.Intervals Model.Checker Proofs.CheckerP.
+
+(* non-vacuity: a valid two-tour document (relations included) inside every fragment, accepted by every modelled rule group *)
+Theorem C12_checker_nonvacuous : exists rels P S,
+  valid_r rels P S = [] /\ length (sl_tours S) = 2%nat /\ rels <> []
+  /\ ctx_frag P S = true /\ single_act_stops S = true /\ two_stops S = true /\ no_reloads S = true
+  /\ simple_jobs P = true /\ one_dim P S = true /\ locs_known P S = true
+  /\ plain_acts S = true /\ caps_nonneg P = true /\ pos_job_ids P = true /\ dyn_balanced P S = true
+  /\ run_rules_t rels P S = (COk, COk, ROk, COk, COk, COk).
+Proof. exact checker_nonvacuous. Qed.
+
+(* ---- (a) checker/limits.rs *)
+(* sound: where the model of check_limits accepts and the tour statistic is the replayed one, the reference reports no limit
+   violation (the rule reads tour.statistic, its own comment asks for the routing check first) *)
+Theorem C12_checker_limits_sound : forall P S, ctx_frag P S = true -> check_limits P S = COk ->
+  forall k t r, nth_error (sl_tours S) k = Some t -> rebuild P t = Some r ->
+    st_dist (to_stat t) = tour_legs (pdist P) (rb_acts r) -> st_dur (to_stat t) = replay_duration (pdur P) (rb_acts r) ->
+    ~ In (FMaxDistance (Z.of_nat k)) (feasible_viol P (Z.of_nat k) t)
+    /\ ~ In (FMaxDuration (Z.of_nat k)) (feasible_viol P (Z.of_nat k) t)
+    /\ ~ In (FTourSize (Z.of_nat k)) (feasible_viol P (Z.of_nat k) t).
+Proof. exact checker_limits_sound. Qed.
+(* complete: no limit violation of the reference, statistic = replay, and the stops lie within the time of the tour's shift
+   (stops_in_shift: the stop-level reading of check_shift_time) => the model accepts *)
+Theorem C12_checker_limits_complete : forall P S, ctx_frag P S = true ->
+  (forall k t, nth_error (sl_tours S) k = Some t -> exists r, rebuild P t = Some r
+     /\ st_dist (to_stat t) = tour_legs (pdist P) (rb_acts r) /\ st_dur (to_stat t) = replay_duration (pdur P) (rb_acts r)
+     /\ ~ In (FMaxDistance (Z.of_nat k)) (feasible_viol P (Z.of_nat k) t)
+     /\ ~ In (FMaxDuration (Z.of_nat k)) (feasible_viol P (Z.of_nat k) t)
+     /\ ~ In (FTourSize (Z.of_nat k)) (feasible_viol P (Z.of_nat k) t)
+     /\ stops_in_shift (rb_shift r) t) ->
+  check_limits P S = COk.
+Proof. exact checker_limits_complete. Qed.
+(* the limit breaches are rejected by the model of the real rule (no validity hypothesis for distance / duration) *)
+Theorem C12_checker_breach_limit_distance : forall P S k t, ctx_frag P S = true -> tour_at S k = Some t ->
+  check_limits (mutP (MLimitDistance k) P S) (mutS (MLimitDistance k) S) <> COk.
+Proof. exact checker_breach_limit_distance. Qed.
+Theorem C12_checker_breach_limit_duration : forall P S k t, ctx_frag P S = true -> tour_at S k = Some t ->
+  check_limits (mutP (MLimitDuration k) P S) (mutS (MLimitDuration k) S) <> COk.
+Proof. exact checker_breach_limit_duration. Qed.
+Theorem C12_checker_breach_limit_size : forall P S k t r, ctx_frag P S = true -> tour_at S k = Some t -> rebuild P t = Some r ->
+  check_limits (mutP (MLimitSize k) P S) (mutS (MLimitSize k) S) <> COk.
+Proof. exact checker_breach_limit_size. Qed.
+
+(* ---- (c) checker/routing.rs *)
+(* sound and complete for the rule as it is written, at the level it talks about (stops): the model accepts exactly the
+   documents that satisfy RoutingRule with tolerance 1 (Model/Checker.v: every leg's arrival and cumulative distance against the RAW
+   matrix, the tour's distance / duration statistic, the overall distance / duration; NOT the first stop's distance, cost, times.* ) *)
+Theorem C12_checker_routing_rule : forall P S, diag_zero P = true -> locs_known P S = true ->
+  (check_routing P S = COk <-> RoutingRule 1 P S).
+Proof. exact checker_routing_iff. Qed.
+(* a document the reference accepts satisfies the stop-level rule EXACTLY (tolerance 0), whatever the skip flag *)
+Theorem C12_checker_routing_exact : forall P S, valid_b P S = [] -> single_act_stops S = true -> RoutingRule 0 P S.
+Proof. exact valid_routing_rule. Qed.
+(* complete: valid documents are not rejected by the routing rules *)
+Theorem C12_checker_routing_complete : forall P S, valid_b P S = [] -> single_act_stops S = true -> locs_known P S = true ->
+  check_routing P S = COk.
+Proof. exact checker_routing_complete. Qed.
+(* breaches rejected by the model of the real rule: overall / tour statistic (distance, duration: fields 1, 2), arrival and
+   cumulative distance of a stop behind the first one moved by at least 2 *)
+Theorem C12_checker_breach_stat_total : forall P S f d, check_routing P S = COk -> d <> 0 -> (f = 1 \/ f = 2)%nat ->
+  check_routing P (mutS (MStatTotal f d) S) <> COk.
+Proof. exact checker_breach_stat_total. Qed.
+Theorem C12_checker_breach_stat_tour : forall P S k f d t, check_routing P S = COk -> d <> 0 -> (f = 1 \/ f = 2)%nat ->
+  tour_at S k = Some t -> check_routing P (mutS (MStatTour k f d) S) <> COk.
+Proof. exact checker_breach_stat_tour. Qed.
+Theorem C12_checker_breach_arrival : forall P S k s d t a b,
+  valid_b P S = [] -> single_act_stops S = true -> locs_known P S = true ->
+  tour_at S k = Some t -> nth_error (to_stops t) s = Some a -> nth_error (to_stops t) (Datatypes.S s) = Some b -> 2 <= Z.abs d ->
+  check_routing P (mutS (MArrival k (Datatypes.S s) d) S) <> COk.
+Proof. exact checker_breach_arrival. Qed.
+(* ... as long as some stop of the breached document still reports a non-zero distance (see C12_checker_skip_distance_refuted) *)
+Theorem C12_checker_breach_distance : forall P S k s d t a b,
+  valid_b P S = [] -> single_act_stops S = true -> locs_known P S = true ->
+  tour_at S k = Some t -> nth_error (to_stops t) s = Some a -> nth_error (to_stops t) (Datatypes.S s) = Some b -> 2 <= Z.abs d ->
+  skip_distance_check (mutS (MDistance k (Datatypes.S s) d) S) = false ->
+  check_routing P (mutS (MDistance k (Datatypes.S s) d) S) <> COk.
+Proof. exact checker_breach_distance. Qed.
+(* findings C12-F1 (cost / times.* never read), C12-F2 (first stop's distance never read), and the documented tolerance
+   (an arrival off by one): the model of the real rule accepts what the reference rejects *)
+Theorem C12_checker_routing_refuted : exists P S,
+  valid_b P S = []
+  /\ check_routing P (mutS (MStatTour 0 0 2) S) = COk /\ valid_b P (mutS (MStatTour 0 0 2) S) <> []
+  /\ check_routing P (mutS (MStatTotal 3 1) S) = COk /\ valid_b P (mutS (MStatTotal 3 1) S) <> []
+  /\ check_routing P (mutS (MDistance 0 0 2) S) = COk /\ valid_b P (mutS (MDistance 0 0 2) S) <> []
+  /\ check_routing P (mutS (MArrival 0 1 1) S) = COk /\ valid_b P (mutS (MArrival 0 1 1) S) <> [].
+Proof. exact checker_routing_refuted. Qed.
+(* finding C12-F19 (new): when every stop distance of the breached document is 0 no distance is compared at all *)
+Theorem C12_checker_skip_distance_refuted : exists P S,
+  valid_b P S = [] /\ single_act_stops S = true /\ applicable_b (MDistance 0 1 (-10)) P S = true
+  /\ skip_distance_check (mutS (MDistance 0 1 (-10)) S) = true
+  /\ check_routing P (mutS (MDistance 0 1 (-10)) S) = COk /\ valid_b P (mutS (MDistance 0 1 (-10)) S) = [RDistance 0 1].
+Proof. exact checker_skip_distance_refuted. Qed.
+
+(* ---- (b) checker/capacity.rs *)
+(* load above capacity: the breach is rejected by the model of the real rule in every tour that is one load interval with a leg *)
+Theorem C12_checker_breach_capacity : forall P S k s t st, ctx_frag P S = true -> tour_at S k = Some t ->
+  nth_error (to_stops t) s = Some st -> no_reload_stop t = true -> (2 <= length (to_stops t))%nat ->
+  check_vehicle_load (mutP (MCapacity k s) P S) (mutS (MCapacity k s) S) <> COk.
+Proof. exact checker_breach_capacity. Qed.
+(* misreported load: a document whose loads the real rule accepts is rejected by it once one reported load is changed *)
+Theorem C12_checker_breach_load : forall P S k s d t st, check_vehicle_load P S = COk -> d <> 0 ->
+  tour_at S k = Some t -> nth_error (to_stops t) s = Some st -> no_reload_stop t = true -> (2 <= length (to_stops t))%nat ->
+  check_vehicle_load P (mutS (MLoad k s d) S) <> COk.
+Proof. exact checker_breach_load. Qed.
+(* sound: where the model of check_vehicle_load accepts a document of the fragment, the two load clauses of the reference hold for
+   every tour the reference can rebuild: no FCapacity, and the load reported at every stop is the replayed one (RLoad) *)
+Theorem C12_checker_capacity_sound : forall P S, check_vehicle_load P S = COk ->
+  ctx_frag P S = true -> single_act_stops S = true -> two_stops S = true -> plain_acts S = true -> simple_jobs P = true ->
+  one_dim P S = true -> pos_job_ids P = true -> dyn_balanced P S = true ->
+  forall k t r, nth_error (sl_tours S) k = Some t -> rebuild P t = Some r ->
+    ~ In (FCapacity (Z.of_nat k)) (feasible_viol P (Z.of_nat k) t)
+    /\ forall s st, nth_error (to_stops t) s = Some st -> ss_load st = nth s (replay_loads_x (rb_has_end r) (rb_acts r)) 0.
+Proof. exact checker_capacity_sound. Qed.
+(* complete: a document the reference accepts is not rejected by check_vehicle_load - inside the fragment: the context fragment,
+   one activity per stop (F4, F8, F11), at least one leg (F3), only job / departure / arrival activities (no reload: F8, F9, F11; no
+   break), jobs the rule attributes without tags (F5), one capacity dimension, non-negative capacities, positive job ids, and every
+   shipment picked up in a tour delivered in it (dyn_balanced; the problem validation E1102 makes pickups and deliveries of a job
+   balance, the reduced documents do not carry that) *)
+Theorem C12_checker_capacity_complete : forall P S, valid_b P S = [] ->
+  ctx_frag P S = true -> single_act_stops S = true -> two_stops S = true -> plain_acts S = true -> simple_jobs P = true ->
+  one_dim P S = true -> caps_nonneg P = true -> pos_job_ids P = true -> dyn_balanced P S = true ->
+  check_vehicle_load P S = COk.
+Proof. exact checker_capacity_complete. Qed.
+(* hence: the misreported load, injected into a valid document of the fragment, is rejected by the model of the real rule *)
+Theorem C12_checker_breach_load_valid : forall P S k s d t st, valid_b P S = [] ->
+  ctx_frag P S = true -> single_act_stops S = true -> two_stops S = true -> plain_acts S = true -> simple_jobs P = true ->
+  one_dim P S = true -> caps_nonneg P = true -> pos_job_ids P = true -> dyn_balanced P S = true ->
+  d <> 0 -> tour_at S k = Some t -> nth_error (to_stops t) s = Some st ->
+  check_vehicle_load P (mutS (MLoad k s d) S) <> COk.
+Proof. exact checker_breach_load_valid. Qed.
+(* findings C12-F3 (a tour of one stop is not load-checked) and C12-F4 (a job in the departure stop: valid document rejected) *)
+Theorem C12_checker_capacity_refuted :
+  (exists P S, valid_b P S = [] /\ two_stops S = false
+     /\ check_vehicle_load P (mutS (MLoad 0 0 1) S) = COk /\ valid_b P (mutS (MLoad 0 0 1) S) = [RLoad 0 0])
+  /\ (exists P S, valid_b P S = [] /\ single_act_stops S = false /\ check_vehicle_load P S = CErr [[ELoadMismatch]]).
+Proof. exact checker_capacity_refuted. Qed.
+(* findings C12-F8 / F11 (a reload that is not alone in its stop: valid documents rejected) and C12-F9 (Panic) *)
+Theorem C12_checker_reload_refuted : exists P S8 S11 S9,
+  valid_b P S8 = [] /\ check_vehicle_load P S8 = CErr [[ELoadMismatch]]
+  /\ valid_b P S11 = [] /\ check_vehicle_load P S11 = CErr [[ELoadMismatch]]
+  /\ single_act_stops S8 = false /\ single_act_stops S11 = false /\ no_reloads S8 = false
+  /\ check_vehicle_load P S9 = CPanic PSubOverflow /\ single_act_stops S9 = true /\ no_reloads S9 = false.
+Proof. exact checker_reload_refuted. Qed.
+
+(* ---- (d) checker/assignment.rs (check_vehicles, check_jobs_presence; check_jobs_match is not modelled) *)
+(* sound, partially: the clauses of Valid.Accounted the rule establishes - no vehicle shift drives two tours, no foreign id in a tour or
+   in the unassigned list, no id twice in the unassigned list, no job both assigned and unassigned, the activities of a job are in
+   one tour.  It does NOT establish that every task of a job is served exactly once (its own TODO: only the number of activities is
+   compared) nor that the tour names an existing type / shift. *)
+Theorem C12_checker_assignment_sound : forall P S, check_assignment P S = COk ->
+  NoDup (map shift_key (sl_tours S))
+  /\ (forall u, In u (sl_unassigned S) -> In (fst u) (job_ids P))
+  /\ (forall t a, In t (sl_tours S) -> In a (job_acts t) -> In (fa_job a) (job_ids P))
+  /\ NoDup (map fst (sl_unassigned S))
+  /\ (forall u t, In u (sl_unassigned S) -> In t (sl_tours S) -> acts_of (fst u) t = [])
+  /\ (forall j k1 k2 t1 t2, nth_error (sl_tours S) k1 = Some t1 -> nth_error (sl_tours S) k2 = Some t2 ->
+        acts_of j t1 <> [] -> acts_of j t2 <> [] -> k1 = k2).
+Proof. exact checker_assignment_sound. Qed.
+(* breaches rejected by the model of the real rule, for EVERY document (no validity hypothesis) unless stated *)
+Theorem C12_checker_breach_unknown_job_unassigned : forall P S j,
+  zmem j (job_ids P) = false -> check_assignment P (mutS (MUnknownUn j) S) <> COk.
+Proof. exact checker_breach_unknown_un. Qed.
+Theorem C12_checker_breach_unknown_job_activity : forall P S k s a j x,
+  zmem j (job_ids P) = false -> act_at S k s a = Some x -> is_job_act x = true ->
+  check_assignment P (mutS (MUnknownAct k s a j) S) <> COk.
+Proof. exact checker_breach_unknown_act. Qed.
+Theorem C12_checker_breach_duplicated_job_unassigned : forall P S i,
+  (i < length (sl_unassigned S))%nat -> check_assignment P (mutS (MDupUn i) S) <> COk.
+Proof. exact checker_breach_dup_un. Qed.
+(* a dropped entry of the unassigned list: rejected when the rule accepted the document before *)
+Theorem C12_checker_breach_dropped_job_unassigned : forall P S i,
+  check_assignment P S = COk -> (i < length (sl_unassigned S))%nat -> check_assignment P (mutS (MDropUn i) S) <> COk.
+Proof. exact checker_breach_drop_un. Qed.
+Theorem C12_checker_breach_assigned_and_unassigned : forall P S k s a x,
+  act_at S k s a = Some x -> is_job_act x = true -> check_assignment P (mutS (MBoth k s a) S) <> COk.
+Proof. exact checker_breach_both. Qed.
+Theorem C12_checker_breach_job_in_two_tours : forall P S k s k2 st,
+  k <> k2 -> stop_at S k s = Some st -> has_job_act st = true -> tour_at S k2 <> None ->
+  check_assignment P (mutS (MCopyStop k s k2) S) <> COk.
+Proof. exact checker_breach_job_in_two_tours. Qed.
+
+(* ---- (e) checker/relations.rs: the `any` rule against the vehicle pinning of Spec/Relations.v (rel_vehicle_ok; proved there
+   <-> VehiclePinned).  Fragment rel_frag: the relation lists no reserved id (F17), no OTHER shift of its vehicle drives a tour (F18),
+   its own tour exists; kind_ids_ok: a break / reload activity carries the reserved id of its kind (rendering) *)
+Theorem C12_checker_relation_any_sound : forall P S r, rl_type r = 0 -> rel_frag r S = true -> kind_ids_ok S = true ->
+  relation_rule P S r = KOk tt -> rel_vehicle_ok r S = true.
+Proof. exact checker_relation_any_sound. Qed.
+(* complete, for a relation whose ids are plan jobs listed once per task (the rule's own "duplicated ids" test) and documents without
+   recharge / unknown activities *)
+Theorem C12_checker_relation_any_complete : forall P S r, rl_type r = 0 -> rel_frag r S = true -> regular_kinds S = true ->
+  relation_count P (nodup Z.eq_dec (rl_jobs r)) = KOk (length (rl_jobs r)) ->
+  rel_vehicle_ok r S = true -> relation_rule P S r = KOk tt.
+Proof. exact checker_relation_any_complete. Qed.
+Theorem C12_checker_relation_any_nonvacuous : exists P S r,
+  rl_type r = 0 /\ rel_frag r S = true /\ kind_ids_ok S = true /\ regular_kinds S = true
+  /\ relation_count P (nodup Z.eq_dec (rl_jobs r)) = KOk (length (rl_jobs r))
+  /\ rel_vehicle_ok r S = true /\ relation_rule P S r = KOk tt.
+Proof. exact checker_relation_any_nonvacuous. Qed.
+(* broken relation: a stop serving a job of an `any` relation moved into the tour of ANOTHER VEHICLE is rejected by the model of the
+   real rule (no validity hypothesis; the rule of this relation or of an earlier one fires) *)
+Theorem C12_checker_breach_relation_any : forall P S rels r k s k2 t t2 st x, In r rels -> rl_type r = 0 -> k <> k2 ->
+  nth_error (sl_tours S) k = Some t -> nth_error (sl_tours S) k2 = Some t2 -> is_rel_tour r t = true ->
+  to_vehicle t2 <> rl_vehicle r -> nth_error (to_stops t) s = Some st -> In x (ss_acts st) -> is_job_act x = true ->
+  In (sa_job x) (rl_jobs r) -> check_relations rels P (mutS (MRelTour k s k2) S) <> COk.
+Proof. exact checker_breach_relation_any. Qed.
+(* findings C12-F17 (an `any` relation listing `departure`: valid pair rejected) and C12-F18 (the
+   pinned job served by another SHIFT of the relation's vehicle: accepted) *)
+Theorem C12_checker_relations_refuted :
+  (exists rels P S, valid_r rels P S = [] /\ check_relations rels P S = CErr [[ERelAny]])
+  /\ (exists rels P S, valid_b P S = [] /\ rel_viols rels S = [FRelVehicle 0] /\ check_relations rels P S = COk).
+Proof. exact checker_relations_refuted. Qed.
+
+(* ---- (f) checker/breaks.rs, first part of check_break_assignment: findings C12-F14 (a break followed by another activity in its
+   stop is counted twice) and C12-F10 (the break is attributed to the first break whose interval intersects): valid pairs rejected *)
+Theorem C12_checker_breaks_refuted :
+  (exists P S, valid_b P S = [] /\ breaks_front P (sl_tours S) = RErr [EBreakMatched])
+  /\ (exists P S, valid_b P S = [] /\ breaks_front P (sl_tours S) = RErr [EBreakLocation]).
+Proof. exact checker_breaks_refuted. Qed.
